@@ -69,7 +69,12 @@ class Lab:
                 lab.log.append(("H", id(render_data)))
                 super()._handle_interrupted_draw_(render_data, render_args, output)
 
-        self.cls = LoggedProbe
+        class PlainLogged(LoggedProbe):
+            """overrides nothing: all hooks (the finalizer too) are inherited"""
+
+        # every other Lab runs the operations on the subclass that only inherits its hooks
+        Lab._count = getattr(Lab, "_count", 0) + 1
+        self.cls = PlainLogged if Lab._count % 2 == 0 else LoggedProbe
 
     def run(self, o: dict):
         """Execute operation ``o`` (a RenderOp.tla Ops record); returns (events, outcome)."""
